@@ -4,7 +4,7 @@ Bounded-exhaustive input families (DESIGN.md C15): all token sequences up to a
 length bound over one lexeme per token kind; every single-token deletion /
 duplication / adjacent swap / replacement and every byte-prefix of valid
 programs; boundary-count families. Each input is (1) compiled only, (2) run,
-(3) fed to the REPL between a definition and a probe.
+(3) imported as a module by a one line importer, (4) fed to the REPL between a definition and a probe.
 Oracle: the front end ends in `ok` or `compile_error`; a compile error comes with
 diagnostics and executes nothing; the REPL survives a line that fails to compile.
 """
@@ -184,12 +184,19 @@ class C15(Check):
             {"src": src, "step_limit": 200000},
         ]
         one_line = "\n" not in src and "\r" not in src and len(src) < 100000
+        as_module = len(src) < 5000
+        if as_module:
+            # the same text as an imported module: a text that does not compile must end the importer with a failing status
+            cases.append({"files": {"/v/main.lay": "print('importer'); import self.a; print('after');", "/v/a.lay": src}, "entry": "/v/main.lay", "step_limit": 200000})
         if one_line:
             cases.append({"repl": ["let v0 = 41;", src, "print(v0 + 1);"], "step_limit": 200000})
-        return cases, one_line
+        return cases, (one_line, as_module)
 
-    def judge(self, spec, one_line, rs):
+    def judge(self, spec, flags, rs):
+        one_line, as_module = flags
         co, full = rs[0], rs[1]
+        imp = rs[2] if as_module else None
+        rs = [rs[0], rs[1]] + (list(rs[3:]) if as_module else list(rs[2:]))
         c = co.get("class")
         if c not in ("ok", "compile_error"):
             return Verdict(False, True, "frontend-" + str(c),
@@ -202,6 +209,10 @@ class C15(Check):
             if full.get("class") != "compile_error" or full.get("out"):
                 return Verdict(False, True, "executed-on-error",
                                "diagnostics were reported but the program was (partly) executed: class=%s out=%r" % (full.get("class"), full.get("out", "")[:80]))
+            if imp is not None:
+                if imp.get("class") == "ok" or imp.get("code") == 0 or "after" in imp.get("out", "") or not imp.get("err", "").strip():
+                    return Verdict(False, True, "import-status", "a module that does not compile was imported and the program did not end with diagnostics and a failing status: class=%s code=%s out=%r" % (
+                        imp.get("class"), imp.get("code"), imp.get("out", "")[:80]))
             if one_line:
                 rp = rs[2]
                 if rp.get("class") != "ok" or "42\n" not in rp.get("out", ""):
